@@ -7,7 +7,10 @@ Inductive case :=
 (* non-interference run: digest of the sequential trace, digests of the traces of the concurrent
    states, digest of the shared prototype before and after (testing part of C13; Coq only
    compares) *)
-| CIso (seqd : list Z) (conc : list (list Z)) (h0 h1 : list Z).
+| CIso (seqd : list Z) (conc : list (list Z)) (h0 h1 : list Z)
+(* two states use a table after it was sent through a channel (known finding C13-1): was a data
+   race on the table observed? *)
+| CShare (raced : bool).
 
 Definition zlist_eqb (a b : list Z) : bool := list_eqb Z.eqb a b.
 
@@ -16,6 +19,9 @@ Definition check_impl (c : case) : bool :=
   match c with
   | CHist caps log => trace_ok caps log
   | CIso s conc h0 h1 => forallb (zlist_eqb s) conc && zlist_eqb h0 h1
+  (* channels pass tables by reference (the filter only refuses what payload_filter lists): the
+     model of the code allows either outcome of the schedule-dependent race *)
+  | CShare _ => true
   end.
 
 (* spec: the clauses of the property evaluated on the observed log *)
@@ -23,4 +29,5 @@ Definition check_spec (c : case) : bool :=
   match c with
   | CHist caps log => spec_log caps log
   | CIso s conc h0 h1 => forallb (zlist_eqb s) conc && zlist_eqb h0 h1
+  | CShare raced => negb raced      (* no data race on interpreter-owned memory *)
   end.
